@@ -14,7 +14,10 @@ for d in sorted(glob.glob(os.path.join(ROOT, "neutral", "*"))):
         meta = {}
     res = []
     for lf in sorted(glob.glob(os.path.join(d, "check.C*.log"))):
-        p = re.search(r"check\.(C\d+)\.log", lf).group(1)
+        mm = re.search(r"check\.(C\d+)\.log$", lf)
+        if not mm:
+            continue
+        p = mm.group(1)
         s = open(lf).read()
         ex = re.findall(r"^exit=(\d+)", s, flags=re.M)
         v = len(re.findall(r"^VIOLATION", s, flags=re.M))
